@@ -42,7 +42,7 @@ ASSUME = {
     ],
     "client-life": [
         "TLC checks ClientLife exhaustively (8 fault kinds, up to 2-4 faults) including the liveness property Recovers under weak fairness of the listener's steps",
-        "the scripted server accepts throughout the 3 s observation window (reachable server); a listener is said to spin above 1000 iterations per second; TCP and TLS-upgraded TCP transports with a 4 KiB read limit",
+        "the scripted server accepts throughout the 3 s observation window (reachable server); a listener is said to spin above 1000 iterations per second; TCP and TLS-upgraded TCP transports with a 4 KiB read limit, WebSocket without",
         "TLC, CommunityModules Json and the Go runtime are trusted",
     ],
     "channel": [
